@@ -545,8 +545,30 @@ func (g *Gen) scenForInMutate() []N {
 	return out
 }
 
+// calling or constructing a value that is not callable (11.2.3 step 4-5, 11.2.2): a TypeError, and no
+// conversion of the value takes place (its toString / valueOf must not run)
+func (g *Gen) scenNonCallable() []N {
+	o := g.fresh("nc")
+	spy := func(tag string) N { return Fn("", nil, g.hcall(Str(tag+" called")), Return(Str("x"))) }
+	out := []N{Var(o, Obj("toString", spy("toString"), "valueOf", spy("valueOf"), "m", Num(1), "inner", Obj("toString", spy("inner toString"))))}
+	callees := []N{Id(o), Dot(Id(o), "m"), Dot(Id(o), "inner"), Dot(Id(o), "missing"), Num(1), Str("s"), Null(), Arr(Id(o)), Idx(Id(o), Str("m"))}
+	for i := 0; i < 2+g.pick(3); i++ {
+		c := callees[g.pick(len(callees))]
+		var e N
+		if g.chance(35) {
+			e = New(c, g.smallVal())
+		} else {
+			e = Call(c, Call(Id("H"), Str("argument evaluated")))
+		}
+		out = append(out, Try([]N{Expr(e), g.hcall(Str("no error"))}, "e", []N{g.hcall(Str("caught"), Bin("instanceof", Id("e"), Id("TypeError")))}, true, nil, false))
+	}
+	return out
+}
+
 func (g *Gen) scenario() []N {
-	switch g.pick(13) {
+	switch g.pick(14) {
+	case 13:
+		return g.scenNonCallable()
 	case 12:
 		return g.scenForInMutate()
 	case 11:
